@@ -1,4 +1,4 @@
-"""C08 - ODE models are exact where theory says so: limits and final sizes (bounded stand-ins); exactness on trees NOT decided."""
+"""C08 - ODE models are exact where theory says so: limits, final sizes, exactness on small trees (all bounded stand-ins)."""
 from ..common import Report, Ob
 from ..symnum import c07
 
@@ -8,6 +8,11 @@ def run(tier, seed):
     c07.NOT_COVERED.clear()
     for ob in c07.c08_obligations(tier):
         rep.add(ob)
+    from ..replay import tree_exact_native
+    from . import util
+    rep.add(util.native_ob('native:pair-based-exact-on-trees', 'EoN/analytic.py:SIR_pair_based_pure_IC / _dSIR_pair_based_', lambda: tree_exact_native.check(tier),
+                           'trees %s; every single seed, one double seed, one seed next to an initially recovered node; no weights / edge weights / node weights / both; tmin=0.5, 4 time points; '
+                           'expected S, I, R from the 3^N-state master equation (matrix exponential), tolerance 2e-4' % [t for t, _ in tree_exact_native.trees(tier)]))
     rep.level = 'other'
     rep.functions.append(dict(file='EoN/analytic.py', qualname='all SIS_/SIR_/EBCM *_from_graph ODE wrappers (tau=0, gamma=0), EBCM_discrete, Attack_rate_cts_time, Attack_rate_discrete'))
     rep.explanation = ('tau=0: the exact Lie derivatives of the real right-hand sides give I\'=-gamma I, I\'\'=gamma^2 I (and S\'=S\'\'=0 for SIR models; '
@@ -16,7 +21,7 @@ def run(tier, seed):
                        'exactly for symbolic p, rho; the attack rates agree numerically with the long-time limit of EBCM / EBCM_discrete. '
                        'All bounded and labelled so.')
     rep.assumptions += ['M (cited): solution of the linear ODE; existence of the limits and convergence of the fixed-point iterations']
-    rep.not_covered += ['NOT DECIDED by this family: SIR_pair_based equals the master-equation expectation on every tree (a theorem about the closure; no function contract expresses it)']
+    rep.not_covered += ['exactness of SIR_pair_based on trees beyond the bounded comparison (trees <= 6 nodes): a theorem about the closure; no function contract expresses it']
     rep.not_covered += list(dict.fromkeys(c07.NOT_COVERED))
     rep.trusted = ['sympy', 'vlib/symnum/harness.py', 'scipy odeint for the numeric final-size comparison']
     return rep, (lambda ob: dict(failure_exhibited=True, how='computed from the real code', input=ob.witness) if ob.witness else None)
